@@ -73,7 +73,7 @@ def oracle(ctx, stream, case_lines, rep):
                             f.write("\n".join(c) + "\n")
                     cands.append(d)
     for ops in cands:
-        out = ops + ".verdict"
+        out = os.path.join(ctx.work, os.path.basename(ops) + ".verdict")
         rc, log = ctx.harness("oracle", stream, ops, out)
         if rc != 0 or not os.path.exists(out):
             continue
@@ -87,7 +87,7 @@ def oracle(ctx, stream, case_lines, rep):
 
 def run_oracle_all(ctx, stream, ops):
     """Second line: the statement evaluated on every generated case, independently of the model."""
-    out = ops + ".verdict"
+    out = os.path.join(ctx.work, os.path.basename(ops) + ".verdict")
     rc, log = ctx.harness("oracle", stream, ops, out)
     if rc != 0 or not os.path.exists(out):
         ctx.tie_broken("oracle-run:" + stream, log)
